@@ -18,6 +18,20 @@ F1 = {
 }
 
 
+def stale_other_file(rng):
+    """a pass meets the same content of one file again while another test case changed to a different content of the
+    same size in between: a replay is sound only if the key carries the contents of the other files"""
+    k = rng.randint(2, 4)
+    texts = ['F' * (k + 4), 'f' * k, 'P' * (k + 1), 'Q' * (k + 1)]          # 0: F, 1: F' (reduced), 2: P, 3: Q (same size as P)
+    def one(name, tr):
+        return {'name': name, 'maxT': None, 'new': {c.split('.')[0]: 0 for c in tr}, 'adv': {}, 'aos': {}, 'tr': tr}
+    passes = [one('reduce', {'0.0': ['OK', 1, 0]}), one('undo', {'1.0': ['OK', 0, 0]}), one('other', {'2.0': ['OK', 3, 0]}),
+              one('idle', {})]
+    return {'texts': texts, 'files': ['a.c', 'b.c'], 'disk': [0, 2], 'passes': passes, 'groups': {'first': [0, 1, 2, 0], 'main': [3], 'last': []},
+            'cfg': {'cacheOn': True, 'silent': True}, 'consts': {}, 'test': {'0.2': 0, '1.2': 0, '0.3': 0, '1.3': 1}, 'faults': {},
+            'N': rng.choice([1, 2]), 'p_done': 1.0, 'wait_policy': 'first', 'mode': 'reduce', 'contract': False, 'rank': [0, 1, 2, 3], 'fuel': 100}
+
+
 def signature(scen, obs):
     sig = D.oracle_C01(scen, obs)
     if sig and scen['cfg'].get('cacheOn', True) and len(scen['files']) > 1 and any(e.startswith('R') for e in obs['log']):
@@ -32,7 +46,7 @@ def nontriv(scen, obs):
 
 
 def scenarios(ctx, n, deep=False):
-    bias = {'files': [1, 2, 2, 3], 'p_equal_files': 0.5, 'p_cache': 0.75, 'p_contract': 0.3, 'p_shared_alphabet': 0.4}
+    bias = {'files': [1, 2, 2, 3], 'p_equal_files': 0.5, 'p_cache': 0.75, 'p_contract': 0.3, 'p_shared_alphabet': 0.4, 'p_fmt': 0.3}
     return [D.gen_scenario(ctx.rng, bias) for _ in range(n)]
 
 
@@ -43,7 +57,7 @@ def run(ctx):
     ctx.lean_gate(OBLIGATIONS)
     diffs = []
     n = 400 if ctx.tier == 'quick' else 6000
-    rows = D.sweep(ctx, [F1] + scenarios(ctx, n), [signature], diffs, nontriv)
+    rows = D.sweep(ctx, [F1] + [stale_other_file(ctx.rng) for _ in range(4)] + scenarios(ctx, n), [signature], diffs, nontriv)
     for i in (0, 5, len(rows) // 2):
         ctx.sample({'scenario_key': D.scen_key(rows[i][0]), 'files': rows[i][0]['files'], 'cfg': rows[i][0]['cfg'], 'observed': rows[i][2]})
 
@@ -51,7 +65,7 @@ def run(ctx):
         D.sweep(ctx, scenarios(ctx, 1500), [signature], [], nontriv)
     conclude(ctx, diffs, search)
     ctx.assumptions += ['a test script that rewrites its own candidate is outside the quantifier (predicates, not mutators)',
-                        "LinesPass.new's in-place reformatting is covered by the pass-level checks, not by the L2 model"]
+                        "a pass whose new() rewrites the file in place (LinesPass) is modelled by table passes that rewrite through the real check_sanity callback; the real topformflat is a stand-in (C04/C05/C08/C10 real-pool scenarios)"]
     return ctx.finish(obligations=OBLIGATIONS,
                       rule='table-driven stub passes (OK/INVALID/STOP/ERROR/crash, growing, unchanged), 1-3 files incl. identical ones, cache on/off, limits, '
                            'faults (timeout, signal, non-zero, broken, foreign exception), N in 1..4, scripted random schedules; real run_pass/reduce under the shim vs '
